@@ -26,6 +26,8 @@ def _int(bits, enc="unsigned", **kw):
     return f'{E}.IntegerDataEncoding({bits}, "{enc}"{extra})'
 
 
+# free text with every character XML escapes (in attribute values and in element text)
+MARKUP_LABEL = 'T<5C & "hot" \'x\' >'
 HEADER = [("VERSION", 3), ("TYPE", 1), ("SEC_HDR_FLG", 1), ("PKT_APID", 11), ("SEQ_FLGS", 2), ("SRC_SEQ_CTR", 14), ("PKT_LEN", 16)]
 
 
@@ -56,7 +58,7 @@ def kitchen_sink_src(date="2024-01-01T00:00:00", ns_prefix="xtce") -> str:
                  f'byte_order="leastSignificantByteFirst", default_calibrator={poly}, context_calibrators=[{C}.ContextCalibrator([{M}.Comparison("0", "FLAG", operator="<")], {spline0})]), unit="V")'),
         "MIL": f'parameter_types.FloatParameterType("MIL_T", {E}.FloatDataEncoding(32, encoding="MILSTD_1750A"))',
         "HALF": f'parameter_types.FloatParameterType("HALF_T", {E}.FloatDataEncoding(16))',
-        "STATE": f'parameter_types.EnumeratedParameterType("STATE_T", {_int(8, default_calibrator=poly)}, {{0: "OFF", 1: "ON", 255: "FAULT", 9007199254740993: "BIG_ODD"}}, unit="state")',
+        "STATE": f'parameter_types.EnumeratedParameterType("STATE_T", {_int(8, default_calibrator=poly)}, {{0: "OFF", 1: "ON", 255: {MARKUP_LABEL!r}, 9007199254740993: "BIG_ODD"}}, unit="state")',
         "ARMED": f'parameter_types.BooleanParameterType("ARMED_T", {_int(8, default_calibrator=f"{C}.PolynomialCalibrator([{C}.PolynomialCoefficient(-1.0, 0), {C}.PolynomialCoefficient(1.0, 1)])")}, unit="bool")',
         "NLEN": f'parameter_types.IntegerParameterType("NLEN_T", {_int(8, default_calibrator=poly)})',
         "NAME":
@@ -82,7 +84,7 @@ def kitchen_sink_src(date="2024-01-01T00:00:00", ns_prefix="xtce") -> str:
         "PAD4": f'parameter_types.IntegerParameterType("PAD4_T", {_int(4)})',
     }
     for n, t in types.items():
-        desc = f', short_description="short {n}", long_description="long text of {n}"' if n in ("MODE",) else ""
+        desc = f', short_description="short {n} <&> \\"q\\"", long_description="long text of {n}: a < b && c > d"' if n in ("MODE",) else ""
         if n == "TEMP":     # a description of several lines, with indentation, a blank line and trailing blanks: text is data
             desc = ', short_description="short TEMP", long_description="first line\\n    second line, indented\\n\\n  fourth line  "'
         params.append(f'parameters.Parameter("{n}", {t}{desc})')
